@@ -14,8 +14,11 @@ import (
 	"path/filepath"
 	"sort"
 	"strings"
+	"sync"
+	"sync/atomic"
 	"syscall"
 	"testing"
+	"time"
 
 	"github.com/cnotch/ipchub/provider/auth"
 	"github.com/cnotch/ipchub/provider/route"
@@ -172,16 +175,7 @@ func TestRoutes(t *testing.T) {
 					return
 				}
 			}
-			// universal suffix: whatever the history, a flush followed by a restart reloads the same table
-			if n := len(h.Hist); n > 0 {
-				want := imgSet(h.Hist[n-1].Table)
-				route.Flush()
-				route.Reset(route.JSON)
-				if got, _ := realRoutes(); got != want {
-					add(mismatch{name, n, "table-after-final-flush+restart", want, got})
-					return
-				}
-			}
+			// lookups on the table as the history left it (derived indexes included) ...
 			before, _ := realRoutes()
 			for _, m := range h.Match {
 				for k := 0; k < 16; k++ { // Go randomises map iteration order
@@ -202,6 +196,40 @@ func TestRoutes(t *testing.T) {
 				}
 			}
 			after, _ := realRoutes()
+			if before != after {
+				add(mismatch{name, len(h.Hist), "table-modified-by-lookup", before, after})
+			}
+			// universal suffix: whatever the history, a flush followed by a restart reloads the same table
+			if n := len(h.Hist); n > 0 {
+				want := imgSet(h.Hist[n-1].Table)
+				route.Flush()
+				route.Reset(route.JSON)
+				if got, _ := realRoutes(); got != want {
+					add(mismatch{name, n, "table-after-final-flush+restart", want, got})
+					return
+				}
+			}
+			// ... and again on the table as reloaded
+			before, _ = realRoutes()
+			for _, m := range h.Match {
+				for k := 0; k < 16; k++ { // Go randomises map iteration order
+					r := route.Match(m.Req.S())
+					lookups++
+					got := "none"
+					if r != nil {
+						got = fmt.Sprintf("%s->%s ka=%v", r.Pattern, r.URL, r.KeepAlive)
+					}
+					if got != m.Res.String() {
+						add(mismatch{name, len(h.Hist), "match(" + m.Req.S() + ")", m.Res.String(), got})
+						break
+					}
+					if r != nil {
+						r.URL = "scribbled" // the caller owns the result; the table must not alias it
+						r.Pattern = "/scribbled"
+					}
+				}
+			}
+			after, _ = realRoutes()
 			if before != after {
 				add(mismatch{name, len(h.Hist), "table-modified-by-lookup", before, after})
 			}
@@ -648,3 +676,56 @@ func TestCrash(t *testing.T) {
 	}
 	vio.WriteJSON(t, "VERIF_OUT", map[string]interface{}{"results": results, "model_steps": full, "kills": kills})
 }
+
+// TestRouteRace: lookups running beside an update of the matched directory route must resolve against the route as
+// it was before or as it is after the update - the URL joined with exactly one '/'.
+func TestRouteRace(t *testing.T) {
+	dir := t.TempDir()
+	_ = dir
+	route.Reset(nopRoutes{})
+	// the table keeps the first saved *Route and updates it in place: use constants, never a saved object's fields
+	const urlA, urlB = "rtsp://a:554/x/", "rtsp://b:554/yy"
+	route.Save(&route.Route{Pattern: "/x/", URL: urlA})
+	okA, okB := "rtsp://a:554/x/live1", "rtsp://b:554/yy/live1"
+	var wrong int32
+	var sample atomic.Value
+	stop := make(chan struct{})
+	var wg sync.WaitGroup
+	for i := 0; i < 4; i++ {
+		wg.Add(1)
+		go func() {
+			defer wg.Done()
+			for {
+				select {
+				case <-stop:
+					return
+				default:
+				}
+				if r := route.Match("/x/live1"); r == nil || (r.URL != okA && r.URL != okB) {
+					atomic.AddInt32(&wrong, 1)
+					if r != nil {
+						sample.Store(r.URL)
+					} else {
+						sample.Store("none")
+					}
+				}
+			}
+		}()
+	}
+	deadline := time.Now().Add(1500 * time.Millisecond)
+	n := 0
+	for time.Now().Before(deadline) {
+		route.Save(&route.Route{Pattern: "/x/", URL: urlB})
+		route.Save(&route.Route{Pattern: "/x/", URL: urlA})
+		n += 2
+	}
+	close(stop)
+	wg.Wait()
+	s, _ := sample.Load().(string)
+	vio.WriteJSON(t, "VERIF_OUT", map[string]interface{}{"updates": n, "wrong": atomic.LoadInt32(&wrong), "sample": s})
+}
+
+type nopRoutes struct{}
+
+func (nopRoutes) LoadAll() ([]*route.Route, error)                { return nil, nil }
+func (nopRoutes) Flush(full, saves, removes []*route.Route) error { return nil }
